@@ -62,7 +62,7 @@ pub struct CpInfo {
 
 /// Maximum number of gap anchors a parenthesis may open at.
 pub const MAX_ANCHOR: usize = 12;
-const PAREN_ALTS: usize = 2 * MAX_ANCHOR + 4;
+const PAREN_ALTS: usize = 4 * MAX_ANCHOR + 4;
 
 /// One native RDATA field.
 #[derive(Clone, Debug)]
@@ -467,13 +467,17 @@ pub fn render(sc: &Scenario, ch: &Choices) -> Option<Rendered> {
                     _ => b" ",
                 };
                 let par = ch.get(Cp::Paren(i));
-                // (anchor, style): style 0 same line, 1 LF after open,
-                // 2 CRLF after open, 3 comment + LF after open, 4 LF before
-                // close, 5 tight (no white space around the parentheses)
+                // (anchor, style). Per anchor: 0 same line, 1 LF after the
+                // open parenthesis, 6 a line break (every second one with a
+                // comment) at every gap from the open parenthesis on -- the
+                // classic multi-line SOA layout --, 7 parentheses around a
+                // single word. At the first gap only: 2 CRLF after open,
+                // 3 comment + LF after open, 4 LF before close, 5 tight (no
+                // white space around the parentheses).
                 let paren: Option<(usize, usize)> = match par {
                     0 => None,
-                    p if p <= 2 * MAX_ANCHOR => Some(((p - 1) / 2 + 1, (p - 1) % 2)),
-                    p => Some((1, p - 2 * MAX_ANCHOR + 1)),
+                    p if p <= 4 * MAX_ANCHOR => Some(((p - 1) / 4 + 1, [0, 1, 6, 7][(p - 1) % 4])),
+                    p => Some((1, p - 4 * MAX_ANCHOR + 1)),
                 };
                 if let Some((a, style)) = paren {
                     if a > nw {
@@ -482,12 +486,24 @@ pub fn render(sc: &Scenario, ch: &Choices) -> Option<Rendered> {
                     if style == 5 && blank_owner {
                         return None;
                     }
+                    if (style == 6 || style == 7) && a >= nw {
+                        return None;
+                    }
                 }
+                let style = paren.map(|p| p.1).unwrap_or(0);
+                let anchor = paren.map(|p| p.0).unwrap_or(usize::MAX);
                 out.extend_from_slice(&words[0].0);
                 for g in 1..=nw {
                     // gap before word g (g == nw: before the end of the line)
-                    let open_here = matches!(paren, Some((a, _)) if a == g);
-                    let style = paren.map(|p| p.1).unwrap_or(0);
+                    let open_here = anchor == g;
+                    if style == 6 && anchor < g {
+                        if g % 2 == 0 {
+                            out.extend_from_slice(b" ; c ( \"\n");
+                        } else {
+                            out.push(b'\n');
+                        }
+                        line += 1;
+                    }
                     if open_here {
                         if style == 5 {
                             out.push(b'(');
@@ -495,7 +511,7 @@ pub fn render(sc: &Scenario, ch: &Choices) -> Option<Rendered> {
                             out.extend_from_slice(ws);
                             out.push(b'(');
                             match style {
-                                1 => {
+                                1 | 6 => {
                                     out.push(b'\n');
                                     line += 1;
                                 }
@@ -520,8 +536,12 @@ pub fn render(sc: &Scenario, ch: &Choices) -> Option<Rendered> {
                         out.extend_from_slice(&words[g].0);
                         line += words[g].1;
                     }
+                    if style == 7 && open_here {
+                        out.extend_from_slice(ws);
+                        out.push(b')');
+                    }
                 }
-                if let Some((_, style)) = paren {
+                if paren.is_some() {
                     match style {
                         4 => {
                             out.push(b'\n');
@@ -530,6 +550,7 @@ pub fn render(sc: &Scenario, ch: &Choices) -> Option<Rendered> {
                             out.push(b')');
                         }
                         5 => out.push(b')'),
+                        7 => {}
                         _ => {
                             out.extend_from_slice(ws);
                             out.push(b')');
